@@ -1,6 +1,55 @@
 import CkbVerif.Driver.Util
+import CkbVerif.Model.Epoch
+
+/-! Line-protocol driver for C07 (protocol: harness/hcore/src/c07.rs). Stateless: every op is a pure
+function of its arguments. -/
 namespace CkbVerif.Driver.C07
-def main (_args : List String) : IO UInt32 := do
-  IO.eprintln "C07: model driver not implemented"
-  return 2
+open CkbVerif.Driver CkbVerif.Epoch CkbVerif.Arith CkbVerif.Gen.Epoch
+
+def hx (n : Nat) : String := "0x" ++ String.ofList (Nat.toDigits 16 n)
+
+def b01 (b : Bool) : String := if b then "1" else "0"
+
+def optNat : Option Nat → String
+  | some v => toString v
+  | none => "fail"
+
+def step (_s : Unit) (ts : List String) : Unit × String :=
+  let r : String :=
+    match ts with
+    | ["consts"] =>
+      s!"tau={TAU} min={MIN_EPOCH_LENGTH} max={MAX_EPOCH_LENGTH} ort={ORPHAN_RATE_TARGET_NUMER}/{ORPHAN_RATE_TARGET_DENOM} bits={EPOCH_NUMBER_BITS},{EPOCH_INDEX_BITS},{EPOCH_LENGTH_BITS} target={EPOCH_DURATION_TARGET}"
+    | op :: args =>
+      match parseNats? args with
+      | none => "bad-op"
+      | some a =>
+        match op, a with
+        | "c2t", [c] => let (t, o) := compactToTarget c; s!"{hx t} {b01 o}"
+        | "t2c", [t] => toString (targetToCompact t)
+        | "c2d", [c] => hx (compactToDifficulty c)
+        | "d2c", [d] => optNat (difficultyToCompact d)
+        | "pow", [c, h] => b01 (powVerify c h)
+        | "enf", [v] => s!"{enfNumber v} {enfIndex v} {enfLength v} wf={b01 (enfIsWellFormed v)} gen={b01 (enfIsGenesis v)}"
+        | "enfnew", [n, i, l] => toString (enfPack n i l)
+        | "succ", [s, p] => b01 (enfIsSuccessorOf s p)
+        | "everify", [p, h] =>
+          (match epochVerify p h with
+           | .ok => "ok" | .malformed => "malformed" | .nonContinuous => "noncontinuous")
+        | "reward", [start, len, base, rem, n] =>
+          optNat (blockReward { number := 0, base, rem, prevHR := 0, start, length := len, compact := 0 } n)
+        | "sec", [start, len, sec, n] =>
+          optNat (secondaryBlockIssuance { number := 0, base := 0, rem := 0, prevHR := 0, start, length := len, compact := 0 } n sec)
+        | "prim", [initial, halving, n] => optNat (primaryEpochReward { T := 0, initial, halving } n)
+        | "next", [T, initial, halving, ortN, ortD, number, base, rem, prevHR, start, len, hn, hc, uncles, dur] =>
+          (match nextEpochExt { T, initial, halving, ortN, ortD }
+              { number, base, rem, prevHR, start, length := len, compact := hc } hn hc uncles dur with
+           | none => "fail"
+           | some o => s!"{o.number} {o.base} {o.rem} {hx o.prevHR} {o.start} {o.length} {o.compact}")
+        | _, _ => "bad-op"
+    | _ => "bad-op"
+  ((), r)
+
+def main (_args : List String) : IO UInt32 :=
+  runLines () step
+
 end CkbVerif.Driver.C07
